@@ -304,4 +304,194 @@ inductive NCfg.Reach (c : NCfg) : NSt → Prop
 
 def NCfg.final (s : NSt) : Bool := s.mph == .done
 
+/-! ## repeated jobs on one assembler
+
+`_thread_fences` lives in the assembler, so the state of every fence persists from one `assemble()` call to the next
+(a finished layered job leaves the front fence and the fences of workers `2..n` open).  Every `assemble()` /
+`assemble_master()` starts with `for(auto& s : _thread_fences) s.close();`.  A job is modelled as
+(reset all fences) ; protocol, on the persistent fence vector `fs`. -/
+
+/-- one iteration of the reset loop -/
+def resetStep (fs : List Bool) (k : Nat) : List Bool := fs.set k false
+
+/-- `for(auto& s : _thread_fences) s.close();` -/
+def resetAll (fs : List Bool) : List Bool := (List.range fs.length).foldl resetStep fs
+
+/-- fence vector ↦ fence function of the protocol machines (a fence that does not exist reads as closed) -/
+def fenceFn (fs : List Bool) : Nat → Bool := fun f => fs.getD f false
+
+/-- what a job leaves behind in `_thread_fences` (`nF` fences) -/
+def persist (nF : Nat) (fence : Nat → Bool) : List Bool := (List.range nF).map fence
+
+/-- start state of the protocol when the fences are in state `fs` (no reset assumed) -/
+def LCfg.initFrom (c : LCfg) (fs : List Bool) : LSt := { c.init with fence := fenceFn fs }
+def CCfg.initFrom (c : CCfg) (fs : List Bool) : CSt := { c.init with fence := fenceFn fs }
+def NCfg.initFrom (c : NCfg) (fs : List Bool) : NSt := { c.init with front := fenceFn fs 0 }
+
+/-- start state of a job on the persisted fences `fs`: reset, then protocol -/
+def LCfg.startJob (c : LCfg) (fs : List Bool) : LSt := c.initFrom (resetAll fs)
+def CCfg.startJob (c : CCfg) (fs : List Bool) : CSt := c.initFrom (resetAll fs)
+def NCfg.startJob (c : NCfg) (fs : List Bool) : NSt := c.initFrom (resetAll fs)
+
+inductive LCfg.ReachFrom (c : LCfg) (s0 : LSt) : LSt → Prop
+  | start : LCfg.ReachFrom c s0 s0
+  | step {s s' : LSt} (e : Ev) : LCfg.ReachFrom c s0 s → c.step s e = some s' → LCfg.ReachFrom c s0 s'
+
+inductive CCfg.ReachFrom (c : CCfg) (s0 : CSt) : CSt → Prop
+  | start : CCfg.ReachFrom c s0 s0
+  | step {s s' : CSt} (e : Ev) : CCfg.ReachFrom c s0 s → c.step s e = some s' → CCfg.ReachFrom c s0 s'
+
+inductive NCfg.ReachFrom (c : NCfg) (s0 : NSt) : NSt → Prop
+  | start : NCfg.ReachFrom c s0 s0
+  | step {s s' : NSt} (e : Ev) : NCfg.ReachFrom c s0 s → c.step s e = some s' → NCfg.ReachFrom c s0 s'
+
+/-- the protocol of one job (the strategy is fixed at compile time, jobs with and without scatter may alternate) -/
+inductive Job
+  | layered (c : LCfg)
+  | colored (c : CCfg)
+  | nosc (c : NCfg)
+
+/-- job `j`, started on the persisted fences `fs`, can run to completion and leave the fences `fs'` -/
+def Job.leaves : Job → List Bool → List Bool → Prop
+  | .layered c, fs, fs' =>
+    ∃ s, c.ReachFrom (c.startJob fs) s ∧ LCfg.final s = true ∧ fs' = persist fs.length s.fence
+  | .colored c, fs, fs' =>
+    ∃ s, c.ReachFrom (c.startJob fs) s ∧ CCfg.final s = true ∧ fs' = persist fs.length s.fence
+  | .nosc c, fs, fs' =>
+    ∃ s, c.ReachFrom (c.startJob fs) s ∧ NCfg.final s = true ∧ fs' = (resetAll fs).set 0 s.front
+
+/-- the fence vectors that can be found at the start of an `assemble()` call: all closed after `compile()`
+(`nF` default-constructed fences), afterwards whatever the previous jobs left -/
+inductive Session (nF : Nat) : List Bool → Prop
+  | compiled : Session nF (List.replicate nF false)
+  | job {fs fs' : List Bool} (j : Job) : Session nF fs → j.leaves fs fs' → Session nF fs'
+
+/-! ## the error path (`okay = false`)
+
+`Worker::operator()` catches everything a task throws (constructor, `prepare/assemble/scatter/finish/combine`);
+a worker whose work function returns `false` - because the task threw or because a fence it waited for carries
+`okay = false` - opens ITS OWN fence with `open(false)` and terminates.  So `false` cascades through the fences:
+layered: from worker `w` down to `w-1, w-2, …` (each waits for the fence of its successor);
+colored: the master collects `all_okay`, opens the back fence with `false`, leaves the colour loop and joins; the
+workers waiting for the back fence see `false`, open their own fence with `false` and terminate.
+The machines below extend the ones above: a fence now has the two flags `_open` and `_okay`. -/
+
+inductive EEv
+  | ok (e : Ev)          -- a normal event; `fwait` means: `wait()` returned `true`; `fopen` means `open(true)`
+  | fopenF (t f : Nat)   -- thread `t` executes `fence[f].open(false)`
+  | fwaitF (t f : Nat)   -- `fence[f].wait()` returned `false` to thread `t`
+  | fail (t : Nat)       -- task code of worker `t` threw
+deriving Repr, DecidableEq
+
+/-- the points where task code runs: constructor (before the first front wait), prepare/assemble/finish
+(between the scatters; `finish()` of a worker's last element runs when the model is already in `preComb`),
+scatter, combine -/
+def canFailPh : Ph → Bool
+  | .front | .idle | .insc | .inComb | .preComb => true
+  | _ => false
+
+structure LESt where
+  base : LSt
+  okay : Nat → Bool       -- `_okay` of every fence
+  failing : Nat → Bool    -- the worker has left its work function with `false`; `open(false)` is still to do
+
+/-- layered: where worker `t` can throw.  Without combine, `finish()` of the last element runs when the model
+is already in `done`; it can throw there as long as the worker has not returned through the error path (after
+`open(false)` its fence is open with `okay = false`; fences are never closed during a layered job). -/
+def LCfg.canFail (c : LCfg) (s : LESt) (t : Nat) : Bool :=
+  canFailPh (s.base.ph t) ||
+    (s.base.ph t == .done && !c.comb && !(s.base.fence t && !s.okay t))
+
+def LCfg.einit (c : LCfg) : LESt := { base := c.init, okay := fun _ => false, failing := fun _ => false }
+
+def LCfg.estep (c : LCfg) (s : LESt) : EEv → Option LESt
+  | .ok e =>
+    if s.failing e.thread then none
+    else match e with
+      | .fwait _ f => if s.okay f then (c.step s.base e).map fun b => { s with base := b } else none
+      | .fopen _ f => (c.step s.base e).map fun b => { s with base := b, okay := updB s.okay f true }
+      | _ => (c.step s.base e).map fun b => { s with base := b }
+  | .fwaitF t f =>
+    if !s.failing t ∧ c.next s.base t = some (.fwait t f) ∧ s.base.fence f = true ∧ s.okay f = false then
+      some { s with failing := updB s.failing t true }
+    else none
+  | .fail t =>
+    if 1 ≤ t ∧ t ≤ c.n ∧ s.failing t = false ∧ c.canFail s t = true then
+      some { s with failing := updB s.failing t true,
+                    base := if s.base.ph t = .inComb then { s.base with mutex := false } else s.base }
+    else none
+  | .fopenF t f =>
+    if 1 ≤ t ∧ t ≤ c.n ∧ s.failing t = true ∧ f = t then
+      some { base := { s.base with fence := updB s.base.fence t true, ph := updP s.base.ph t .done },
+             okay := updB s.okay t false, failing := updB s.failing t false }
+    else none
+
+inductive LCfg.EReach (c : LCfg) : LESt → Prop
+  | init : LCfg.EReach c c.einit
+  | step {s s' : LESt} (e : EEv) : LCfg.EReach c s → c.estep s e = some s' → LCfg.EReach c s'
+
+def LCfg.efinal (s : LESt) : Bool := LCfg.final s.base
+
+structure CESt where
+  base : CSt
+  okay : Nat → Bool
+  failing : Nat → Bool
+  allOkay : Bool          -- the master's `all_okay` of the current colour
+
+def CCfg.einit (c : CCfg) : CESt :=
+  { base := c.init, okay := fun _ => false, failing := fun _ => false, allOkay := true }
+
+/-- the constructor can only throw before the first colour -/
+def canFailC (s : CSt) (t : Nat) : Bool :=
+  match s.ph t with
+  | .front => s.col t == 0
+  | .idle | .insc | .inComb | .toOpen => true   -- `toOpen`: `finish()` of the last element of the colour share
+  | _ => false
+
+def CCfg.estep (c : CCfg) (s : CESt) : EEv → Option CESt
+  | .ok e =>
+    if e.thread ≠ 0 ∧ s.failing e.thread = true then none
+    else match e with
+      | .fwait _ f =>
+        -- `wait()` returned `true` (a `false` is the event `fwaitF`)
+        if s.okay f then (c.step s.base e).map fun b => { s with base := b } else none
+      | .fopen t f =>
+        if t = 0 ∧ s.base.mph = .openBack ∧ s.allOkay = false then none   -- `back().open(all_okay)` with `false`
+        else (c.step s.base e).map fun b =>
+          { s with base := b, okay := updB s.okay f true,
+                   allOkay := if t = 0 ∧ s.base.mph = .openFront then true else s.allOkay }
+      | _ => (c.step s.base e).map fun b => { s with base := b }
+  | .fwaitF t f =>
+    if t = 0 then
+      -- master: `all_okay = (wait() && all_okay)` in the first loop, value ignored in the second
+      if s.okay f = false then
+        (c.step s.base (.fwait 0 f)).map fun b =>
+          { s with base := b, allOkay := if s.base.mph = .wait1 then false else s.allOkay }
+      else none
+    else if s.failing t = false ∧ c.next s.base t = some (.fwait t f) ∧ s.base.fence f = true ∧ s.okay f = false then
+      some { s with failing := updB s.failing t true }
+    else none
+  | .fail t =>
+    if 1 ≤ t ∧ t ≤ c.n ∧ s.failing t = false ∧ canFailC s.base t = true then
+      some { s with failing := updB s.failing t true,
+                    base := if s.base.ph t = .inComb then { s.base with mutex := false } else s.base }
+    else none
+  | .fopenF t f =>
+    if t = 0 then
+      -- `back().open(false); break;` : leave the colour loop, go on to join
+      if s.base.mph = .openBack ∧ s.allOkay = false ∧ f = c.n + 1 then
+        some { s with base := { s.base with fence := updB s.base.fence f true, mph := .join },
+                      okay := updB s.okay f false }
+      else none
+    else if t ≤ c.n ∧ s.failing t = true ∧ f = t then
+      some { s with base := { s.base with fence := updB s.base.fence t true, ph := updP s.base.ph t .done },
+                    okay := updB s.okay t false, failing := updB s.failing t false }
+    else none
+
+inductive CCfg.EReach (c : CCfg) : CESt → Prop
+  | init : CCfg.EReach c c.einit
+  | step {s s' : CESt} (e : EEv) : CCfg.EReach c s → c.estep s e = some s' → CCfg.EReach c s'
+
+def CCfg.efinal (s : CESt) : Bool := CCfg.final s.base
+
 end FeatModel.DA
